@@ -546,11 +546,20 @@ def _emission(repo, rep):
             if L.frag_find(w, "if _N in _B:\n    if not bool(_V): continue\n"
                               "    _V = _N"):
                 okb = True
-            if L.frag_find(w, "if _N not in _E and _V is not None:\n    _X"):
-                okn = True
-            elif any(isinstance(n, ast.If) and "not in" in src(n.test) and
-                     "is not None" in src(n.test) for n in ast.walk(w.tree)):
-                okn = True
+            for node, b in L.frag_find(
+                    w, "if _N not in _E and _V is not None:\n    _X") + \
+                    L.frag_find(
+                        w, "if _V is not None and _N not in _E:\n    _X"):
+                # the key is compared as written: _N is the loop's own key
+                # variable, not a transformation of it
+                loop = getattr(node, "_parent", None)
+                loop = [x for x in ast.walk(w.tree)
+                        if isinstance(x, ast.For) and any(
+                            y is node for y in ast.walk(x))]
+                keys = {src(x.target.elts[0]) for x in loop
+                        if isinstance(x.target, ast.Tuple)}
+                if isinstance(b["_N"], ast.Name) and b["_N"].id in keys:
+                    okn = True
     rep.check(okb, "R07.4", da.qualname, "a boolean name in an attribute "
               "dictionary renders name=\"name\" for true values and is "
               "skipped for false ones", construct="dict-bool", where=L.where(
